@@ -503,6 +503,24 @@ TARGETS = [
                   struct_as={"Self": ["packs_uuid", "packs"]}, map_vars=["packs"],
                   for_counts={"header.pack_count": "(header).packCount"},
                   loop_vars=[("pack_offset", "Nat"), ("packs_uuid", "List Bytes"), ("packs", "List (Bytes × R)")])),
+    # ---- the check block: its parser and the verdict
+    dict(name="checkKindParse", group="Parse", file="src/common/check.rs", fn="parse", after=r"impl Parsable for CheckKind",
+         enums=[dict(rust="CheckKind", file="src/common/check.rs", lean="SrcCheckKind", types={}, ctor_prefixes=["CheckKind"])],
+         cfg=dict(params=[("bs", "Bytes")], ret="SrcCheckKind", outcome=True, reads={"read_u8": "takeLE bs 1"})),
+    dict(name="checkInfoParse", group="Parse", file="src/common/check.rs", fn="parse", after=r"impl Parsable for CheckInfo",
+         enums=[dict(rust="CheckKind", file="src/common/check.rs", lean="SrcCheckKind", types={}, declare=False)],
+         cfg=dict(params=[("bs", "Bytes")], ret="Option Bytes", outcome=True,
+                  read_calls={"CheckKind::parse": "checkKindParse bs", "blake3::Hash::parse": "takeBytes bs 32"},
+                  struct_as={"Self": ["b3hash"]})),
+    dict(name="checkInfoCheck", group="Check", file="src/common/check.rs", fn="check", after=r"impl CheckInfo",
+         cfg=dict(params=[("b3hash_", "Option (List UInt8)"), ("hashOfSource", "List UInt8")], ret="Bool",
+                  self_fields={"b3hash": "b3hash_"}, call_raw={"blake3::Hasher::new": "()"},
+                  exprs={"hasher.finalize()": "hashOfSource"}, ignore_stmts=["hasher.update_reader("])),
+    dict(name="packHeaderCheckInfoSize", group="Check", file="src/common/headers/pack.rs", fn="check_info_size",
+         cfg=dict(params=[("file_size", N), ("check_info_pos", N), ("headerBlock", N)], ret=N,
+                  self_fields={"file_size": "file_size", "check_info_pos": "check_info_pos"},
+                  paths={"Self::BLOCK_SIZE": "headerBlock"},
+                  exprs={"BlockCheck::Crc32.size()": "(blockCheckSize 1)"}, methods={"into_u64": "{recv}"})),
 ]
 
 
